@@ -102,6 +102,22 @@ func (ex *Exec) callStd(full string, fobj *types.Func, args []Value, e *ast.Call
 			ex.oblige("safety", "BigEndian.Put@"+ex.where(e), BoolC(false), "short slice")
 			panic(pathEnd{"short slice"})
 		}
+		if !ex.mode.BV && !v.IsConst() {
+			// byte decomposition: fresh bytes b_i in [0,256) with sum b_i*256^(n-1-i) == v mod 2^(8n) (unique)
+			var parts []*Term
+			for i := 0; i < n; i++ {
+				b := ex.freshWord("byte", u8t)
+				s.Obj.Cells[s.Off+i] = b
+				parts = append(parts, Mul(IntC(pow2(8*(n-1-i))), b))
+			}
+			val := v
+			if ub := ex.upper(v); ub == nil || ub.Cmp(pow2(8*n)) > 0 {
+				val = Mod(v, IntC(pow2(8*n)))
+			}
+			ex.st.addFact(Eq(Add(parts...), val), "PutUint@"+ex.where(e))
+			ex.noteWrite(s.Obj, s.Off, n)
+			return nil
+		}
 		for i := 0; i < n; i++ {
 			var b *Term
 			sh := 8 * (n - 1 - i)
